@@ -77,6 +77,12 @@ exactly its own signature(s).  6000 seeds per mutant, all caught:
   M14 bounded_gather ignores `parallelism`                 C20/over_bound/plain
 M3, M6..M11, M13 were also applied to the unchanged tree and raise the same new signatures there.
 
+Harness history: the first thorough sweep (1.2 M runs) raised C20/spurious_cancel/no_cancel_on_error 4 times -- an
+oracle bug, not a defect: an outer cancel of the enclosing call arriving in the very loop iteration in which a leaf
+of a nested call fails reaches the nested gather's children although the nested call itself still raises the
+leaf's error.  causes_before()/post_drain() now follow the enclosing call chain; 1.5 M thorough runs on the
+unchanged tree then show only the eight signatures above, 1.5 M on the repaired copy none.
+
 params: {'allow_unheld': False} restricts bounded_gather2 / OnlineBoundedGather2 to callers that hold a permit (use
 it once the helpers document that precondition); bounded_gather is always generated.
 """
